@@ -154,11 +154,27 @@ pub fn run(tier: &str, seed: u64, em: &mut Emitter) {
         ev.insert("room_id".into(), CanonicalJsonValue::String("r".repeat(sz - base)));
         emit(em, "boundary-size-ref", 1, 9, &ev);
     }
+    // Systematic: every (version, type) with all specified keys present (the cells in which the
+    // room versions differ), hashed three ways; and events that already carry a `hashes.sha256`.
+    for v in 1..=11u32 {
+        for ty in crate::c04::TYPES {
+            let ev = crate::c04::full_event(ty);
+            emit(em, "systematic", 0, v, &ev);
+            emit(em, "systematic", 1, v, &ev);
+            let mut stale = ev.clone();
+            let mut h = CanonicalJsonObject::new();
+            h.insert("sha256".into(), CanonicalJsonValue::String("c3RhbGU".into()));
+            h.insert("md5".into(), CanonicalJsonValue::String("x".into()));
+            stale.insert("hashes".into(), CanonicalJsonValue::Object(h));
+            emit(em, "systematic-stale-hash", 2, v, &stale);
+            emit(em, "systematic-stale-hash", 1, v, &stale);
+        }
+    }
     // base64 decoding as ruma configures it (indifferent padding, trailing bits allowed): exhaustive
     // over short strings of a small alphabet, both alphabets
     {
         const ALPHA: &[u8] = b"AQZaz09+/-_= !";
-        let max_len = if tier == "thorough" { 5 } else { 4 };
+        let max_len = if tier == "thorough" { 5 } else { 3 };
         let mut idx: Vec<usize> = vec![];
         loop {
             let t: Vec<u8> = idx.iter().map(|&k| ALPHA[k]).collect();
